@@ -119,7 +119,18 @@ func vhIsExternal(err error) bool {
 //vh:param owned 3 3
 //vh:param maxworkers 1 2
 func VH_C15_StorageStep() {
-	vhStorageStep(vhUniverse(vhParam("owned", 3), false))
+	vhStorageStep(vhUniverse(vhParam("owned", 3), false), false)
+}
+
+// One step of a commit during which the ledger fails one identifier, from any
+// coherent state over a smaller universe.
+//
+//vh:prop C15 C14 C03
+//vh:stubs codec
+//vh:param owned 2 3
+//vh:param maxworkers 1 2
+func VH_C15_FaultyCommitStep() {
+	vhStorageStep(vhUniverse(vhParam("owned", 2), vhChoose("temp", 2) == 1), true)
 }
 
 // Same step over a universe with a temporary-address identifier.
@@ -129,10 +140,10 @@ func VH_C15_StorageStep() {
 //vh:param owned 1 2
 //vh:param maxworkers 1 2
 func VH_C15_StorageStepTemp() {
-	vhStorageStep(vhUniverse(vhParam("owned", 1), true))
+	vhStorageStep(vhUniverse(vhParam("owned", 1), true), false)
 }
 
-func vhStorageStep(ids []SlabID) {
+func vhStorageStep(ids []SlabID, faultyCommitOnly bool) {
 	nids := len(ids)
 	base := newVBase()
 	st := vhNewPersistent(base)
@@ -142,13 +153,17 @@ func vhStorageStep(ids []SlabID) {
 		view[i] = s.view()
 	}
 	logBefore := len(base.log)
-	op := vhChoose("op", 10)
+	op := 10
+	if !faultyCommitOnly {
+		op = vhChoose("op", 10)
+	}
 	k := 0
-	if op <= 4 || op == 9 {
+	if op <= 4 || op >= 9 {
 		k = vhChoose("which", nids)
 	}
 	id := ids[k]
 	commitOp := false
+	faultyCommit := false
 	switch op {
 	case 0: // Store
 		nv := vhRange("newver", 1, 200)
@@ -223,6 +238,47 @@ func vhStorageStep(ids []SlabID) {
 		} else {
 			vhAssert(err == nil, "read served without the ledger succeeds")
 		}
+	case 10: // a commit during which the ledger fails the write/delete of ONE identifier:
+		// the commit reports an external error, the view is unchanged, the failed
+		// entry stays pending with its register untouched, every other owned entry
+		// is either written (register = view, no longer pending) or still pending
+		// (register untouched)
+		base.faults = map[SlabID]bool{id: true}
+		w := 1 + vhChoose("workers", vhParam("maxworkers", 1))
+		var err error
+		if vhChoose("relaxed", 2) == 1 {
+			err = st.NondeterministicFastCommit(w)
+		} else {
+			err = st.FastCommit(w)
+		}
+		base.faults = nil
+		faultedPending := states[k].inDelta != 0 && id.address != AddressUndefined
+		if faultedPending {
+			vhAssert(err != nil, "faulty commit reports an error")
+			vhAssert(vhIsExternal(err), "faulty commit: external error")
+		} else {
+			vhAssert(err == nil, "commit without a triggered fault succeeds")
+		}
+		for i, s := range states {
+			if s.id.address == AddressUndefined {
+				continue
+			}
+			_, pending := st.deltas[s.id]
+			if s.inDelta == 0 {
+				vhAssert(!pending, "faulty commit: nothing becomes pending")
+				continue
+			}
+			if i == k {
+				vhAssert(pending, "faulty commit: the failed entry stays pending")
+			}
+			if pending {
+				vhAssert(vhBaseVersion(base, s.id) == s.committed(), "faulty commit: a pending entry's register is untouched")
+			} else {
+				vhAssert(vhBaseVersion(base, s.id) == view[i], "faulty commit: a written entry's register equals the view")
+			}
+		}
+		commitOp = true
+		faultyCommit = true
 	case 8: // preload (sequential path) never changes the view
 		err := st.BatchPreload(ids, 2)
 		vhAssert(err == nil, "preload: no error")
@@ -232,7 +288,7 @@ func vhStorageStep(ids []SlabID) {
 		vhAssert(len(base.log) == logBefore, "no ledger write or delete outside commit")
 	}
 	vhCheckView(st, states, view, "view after op")
-	if commitOp {
+	if commitOp && !faultyCommit {
 		for i, s := range states {
 			if s.id.address == AddressUndefined {
 				// temporary slabs are never written and stay pending
